@@ -887,10 +887,67 @@ def run(ctx):
         if len(batch.ops) >= 5000:
             batch.flush()
     batch.flush()
+    # 5. a server with a state of its own (c20_world.py): every name-taking action x known / unknown / mixed name
+    #    lists x worlds that include the no-op situations (no processes, no pending configuration change, ...)
+    from props import c20_world as W
+    for line, wj in WORLD_CORPUS:
+        world_case(batch, 'world-corpus', W.World.from_json(wj), line)
+    for tag, w, line in W.systematic(full):
+        world_case(batch, tag, w, line)
+    batch.flush()
+    for i in range(ctx.n(2500, 40000)):
+        w = W.random_world(rng)
+        for _ in range(rng.choice([1, 2, 3])):
+            world_case(batch, 'world-random', w, W.random_line(rng, w))
+        if len(batch.ops) >= 5000:
+            batch.flush()
+    batch.flush()
+
+
+def world_case(batch, tag, w, line):
+    """one command line against a fresh copy of world w: the scripted monitors and the correspondence on the answers
+    consumed, and the statement evaluated on (line, world)"""
+    from props import c20_world as W
+    ctx = batch.ctx
+    wj = w.to_json()
+    wi = W.World.from_json(wj)
+    cmd, arg = parse_cmd(line)
+    if cmd == 'fg':
+        # outside the Lean model: monitors only, and only invocations that end before the interactive part
+        if W.spec('fg', arg, W.World.from_json(wj)) is None:
+            return
+        r = execute(line, wi.source())
+        ctx.count('tag:' + tag); ctx.count('action:fg'); ctx.count('exit:%d' % r.exit)
+        ctx.case_done((line, repr(wj)), nontrivial=len(r.log) > 0)
+    else:
+        r = batch.case(line, wi.source(), tag)
+    if r is not None:
+        W.monitor_world(ctx, r, line, wj, wi)
+
+
+# world regression corpus: (line, world as JSON) -- seeded change C20-4: `update <unknown group>` while the server
+# reports no pending configuration change (with and without a known group beside it, with and without processes)
+_W_ONE = {'procs': [['foo', 'foo', 20, 101, {}, {'stdout': 'x\n', 'stderr': None}]], 'config': {'foo': ['foo']},
+          'changed': [], 'shutting': False, 'mainlog': 'm\n'}
+_W_NONE = {'procs': [], 'config': {}, 'changed': [], 'shutting': False, 'mainlog': 'm\n'}
+_W_ADDED = {'procs': [['foo', 'foo', 20, 101, {}, {'stdout': 'x\n', 'stderr': None}]], 'config': {'foo': ['foo'], 'added': ['added']},
+            'changed': [], 'shutting': False, 'mainlog': 'm\n'}
+WORLD_CORPUS = [
+    ('update typo', _W_ADDED), ('update added', _W_ADDED),
+    ('update typo', _W_ONE), ('update foo typo', _W_ONE), ('update typo foo', _W_ONE), ('update foo', _W_ONE),
+    ('update typo', _W_NONE), ('update', _W_NONE), ('update all typo', _W_NONE),
+    ('status typo', _W_NONE), ('start typo', _W_NONE), ('stop all', _W_NONE), ('pid typo', _W_NONE), ('remove typo', _W_NONE),
+]
 
 
 def replay(ctx, data):
     inp = data['input']
+    if 'world' in inp:
+        from props import c20_world as W
+        batch = Batch(ctx)
+        world_case(batch, 'replay', W.World.from_json(inp['world']), inp['line'])
+        batch.flush()
+        return
     script = [tuple(tuple(x) if isinstance(x, list) and x and not isinstance(x[0], list) else x for x in a) for a in inp['script']]
     script = [_retuple(a) for a in inp['script']]
     batch = Batch(ctx)
